@@ -54,6 +54,23 @@ def _ledger_reason_holds(cx, rel, fn_, target, how):
         # the accumulator that it assigns `Some(..)` to
         loop = next((a for a in par.ancestors(target) if a["k"] == "For"), None)
         if loop is None or not S.span_contains(loop["iter"]["sp"], target["sp"]):
+            # the iterator form: `let mut it = enums.iter().filter(..).map(..); let first = it.next()?; match it.next() { Some(_) => None, None => Some(first) }`
+            loc = next((a for a in par.ancestors(target) if a["k"] == "Local" and a["pat"]["k"] in ("PIdent", "PType") and a.get("init") is not None), None)
+            if loc is not None:
+                chain, e = [], loc["init"]
+                while e["k"] == "MethodCall":
+                    chain.append(e["method"])
+                    e = e["recv"]
+                v = S.pat_bindings(loc["pat"])[0]
+                uses = [u for u in S.walk(fn_.body) if u["k"] == "Path" and u["segs"] == [v]]
+                nexts = [par.parent(u) for u in uses if par.parent(u) is not None and par.parent(u)["k"] == "MethodCall" and par.parent(u)["method"] == "next" and par.role(u) == "recv"]
+                second_none = any(m_["k"] == "Match" and m_["scrut"] in nexts and any(
+                    S.norm_ws(cx.text(rel, a_["pat"])).startswith("Some(") and S.is_path(a_["body"], "None") for a_ in m_["arms"]) for m_ in S.find(fn_.body, "Match"))
+                # .. or `it.next().is_none().then(|| first.clone())`: the second answer is only asked whether it exists
+                second_none = second_none or any(par.parent(nx) is not None and par.parent(nx)["k"] == "MethodCall" and par.parent(nx)["method"] in ("is_none", "is_some")
+                                                 and par.role(nx) == "recv" for nx in nexts)
+                if not (set(chain) & (ORDER_PICKING_TERMINALS | ORDER_SENSITIVE_ADAPTORS)) and len(uses) == len(nexts) == 2 and second_none:
+                    return True, "the iterator is asked twice and a second hit answers None"
             return False, "the iteration is not the iterable of a for loop"
         accs = {a["left"]["segs"][0] for a in S.find(loop["body"], "Assign")
                 if a["left"]["k"] == "Path" and len(a["left"]["segs"]) == 1 and a["right"]["k"] == "Call" and S.callee_name(a["right"]) == "Some"}
